@@ -373,6 +373,11 @@ def limits_family():
            "vl[1e19]", "vl[-1e19]", "vl[1e300]", "vl[0.0]", "vl[1u]", "vm[1e19]", 'duration("s")', 'duration(".s")', 'duration("-h")', 'duration("1h.m")', 'duration("")', 'timestamp("America")',
            'timestamp("")', "int(\"\")", 'double("")', "uint(\"-\")", "bytes(1)", "string([1])", "type()", "type(1, 2)", "size()", "size(1, 2)", "vs.contains()", "vs.startsWith(1, 2)", "matches()",
            'vs.matches("(")', 'vs.matches("\\\\")', "-vs", "!vi", "-vn", "-vb", "vl + vm", "vm in vm", "vn in vn", "vl[vl]", "vm[vm]", "vm[vl]", "{vl: 1}", "{vm: 1}", "{1.5: 1}", "{null: 1}", "[1][true]"]
+    # every macro with every shape of a first argument that contains exactly one name but is not an identifier
+    # (plus the parenthesised identifier, which is one), with a body that does and does not mention the name
+    for mac, body in (("map", "2"), ("map", "x"), ("filter", "true"), ("all", "true"), ("exists", "true"), ("exists", "x == 1"), ("exists_one", "true")):
+        for var in ("(x)", "((x))", "x.y", "x[0]", "-x", "!x", "f(x)", "[x]", "{x: 1}", '{"k": x}', "x ? 1 : 2", "x.f()", "x + x", "x()", "x || true", "x in [1]", ".x", "x.y.z", "vl[0]"):
+            odd.append(f"[1].{mac}({var}, {body})")
     for o in odd:
         out.append(("raw", None, o))
         out.append(("raw", None, f"({o}) == 1 || true"))
